@@ -5,12 +5,14 @@ import (
 	"encoding/json"
 	"fmt"
 
+	"github.com/hashicorp/hcl/v2"
+
 	"github.com/hashicorp/hcl/v2/ext/dynblock"
 	"github.com/hashicorp/hcl/v2/hcldec"
 	"os"
 	"sort"
-	"strings"
 	"strconv"
+	"strings"
 
 	"hx/lib"
 	"hx/props/evalgen"
@@ -78,6 +80,32 @@ func evalDoc(path string) {
 func main() {
 	if len(os.Args) > 2 && os.Args[1] == "eval" {
 		evalDoc(os.Args[2])
+		return
+	}
+	if len(os.Args) > 2 && os.Args[1] == "vars" {
+		b, _, err := evalgen.DecodeBodyCase(lib.ReplayInput(os.Args[2]))
+		if err != nil {
+			fmt.Println(err)
+			return
+		}
+		spec := evalgen.BuildSpec(b.Items)
+		show := func(name string, ts []hcl.Traversal) {
+			m := map[string]bool{}
+			for _, t := range ts {
+				m[t.RootName()] = true
+			}
+			var ks []string
+			for k := range m {
+				ks = append(ks, k)
+			}
+			sort.Strings(ks)
+			fmt.Println(name, ks)
+		}
+		show("hcldec.Variables          ", hcldec.Variables(b.Body, spec))
+		show("dynblock.VariablesHCLDec  ", dynblock.VariablesHCLDec(b.Body, spec))
+		show("dynblock.ExpandVariables  ", dynblock.ExpandVariablesHCLDec(b.Body, spec))
+		fmt.Println("needed (all)              ", evalgen.BodyFreeRoots(b.Tree, false))
+		fmt.Println("needed (expand)           ", evalgen.BodyFreeRoots(b.Tree, true))
 		return
 	}
 	if len(os.Args) > 1 && os.Args[1] == "bodies" {
